@@ -167,7 +167,22 @@ def render_doc(doc, lay, module_name=False, head=None):
         lay.features.add("doc-tab-indent")
     elif ind:
         lay.features.add("doc-space-indent")
-    out = [ind + "#[[[" + (head or "")]
+    # the opener's own leading whitespace is inter-token whitespace (the token starts at '#[[['): it may differ
+    # from the block indentation, and a bracket comment may precede the opener on its line
+    k = lay.pick(8)
+    lead = ind
+    if doc.get("form") != "bare" and doc.get("indent") is None:
+        if k == 5:
+            lead = ind + "  "
+            lay.features.add("doc-opener-extra-indent")
+        elif k == 6:
+            lead = ""
+            if ind:
+                lay.features.add("doc-opener-less-indent")
+        elif k == 7:
+            lead = ind + BRACKET_CMT[0] + " "
+            lay.features.add("comment-before-doc-opener-on-same-line")
+    out = [lead + "#[[[" + (head or "")]
     for l in doc["lines"]:
         if doc.get("form") == "bare":
             out.append(l)
@@ -241,20 +256,28 @@ def render_items(items, lay, depth, out):
         elif k == "member":
             out.append(render_cmd("cpp_constructor" if it["ctor"] else "cpp_member",
                                   [it["name"], it["cls"]] + it["types"], lay, ind))
-            _render_impl(it, ["${" + it["name"].strip('"${}[]=') + "}", "self"], lay, depth, out, ind)
+            _render_impl(it, [_impl_name(it), "self"], lay, depth, out, ind)
         elif k in ("test", "section"):
             out.append(render_cmd("ct_add_test" if k == "test" else "ct_add_section", test_args(it), lay, ind))
-            _render_impl(it, ["${" + it["name"].strip('"${}[]=') + "}"], lay, depth, out, ind)
+            _render_impl(it, [_impl_name(it)], lay, depth, out, ind)
         elif k == "addtest":
             out.append(render_cmd("add_test", test_args(it), lay, ind))
         else:
             raise ValueError(k)
 
 
+def _impl_name(it):
+    from .gen_cmake import impl_name
+    return impl_name(it)
+
+
 def _render_impl(it, lead, lay, depth, out, ind):
     impl = it["impl"]
     # only layout (whitespace / annotation comments) between a declaration and its implementation
     out.append(_gap(lay, ind))
+    if impl.get("doc") is not None:
+        out.append(render_doc(impl["doc"], lay))
+        out.append(_between_doc_and_cmd(lay, ind))
     out.append(render_cmd(impl["cmd"], lead + impl["params"], lay, ind))
     render_items(impl["body"], lay, depth + 1, out)
     out.append(_gap(lay, ind))
